@@ -352,7 +352,7 @@ def plan(tier, seed):
         specs = [{"kind": "tables", "examples": 40, "seed": seed * 1000 + k} for k in range(16)]
         specs += [{"kind": "files", "files": [f]} for f in corpus.SMALL[:8]]
     else:
-        specs = [{"kind": "tables", "examples": 320, "seed": seed * 1000 + k} for k in range(16)]
+        specs = [{"kind": "tables", "examples": 800, "seed": seed * 1000 + k} for k in range(16)]
         specs += [{"kind": "files", "files": [f]} for f in corpus.all_files()]
     return specs
 
